@@ -139,12 +139,24 @@ void constructCommon(ModelSignature model,
             grid.read(infile, mode_binary);
             complete.read(infile);
         };
+        #ifdef TASMANIAN_VERIF_HOOKS
+        int verif_recovered_from = 0; // c17: 1 - main file, 2 - backup file, 0 - nothing
+        #endif
         if (is_valid_checkpoint(filename)){
             recover_from(filename);
             main_is_current = true;
+            #ifdef TASMANIAN_VERIF_HOOKS
+            verif_recovered_from = 1;
+            #endif
         }else if (is_valid_checkpoint(filename_old)){
             recover_from(filename_old); // main file is missing or is corrupt, using the older version
+            #ifdef TASMANIAN_VERIF_HOOKS
+            verif_recovered_from = 2;
+            #endif
         } // else nothing could be recovered, start over from the current grid
+        #ifdef TASMANIAN_VERIF_HOOKS
+        TSG_VERIF_HOOK("c17:recovered", verif_recovered_from, complete.getNumStored() + ((grid.empty()) ? 0 : grid.getNumLoaded()));
+        #endif
     }
 
     if (!filename.empty() && !main_is_current){ // initial checkpoint
@@ -158,6 +170,9 @@ void constructCommon(ModelSignature model,
     // prepare several commonly used steps
     auto checkpoint = [&]()->void{ // keeps two saved states for the constructed grid
         if (!filename.empty()){
+            #ifdef TASMANIAN_VERIF_HOOKS
+            TSG_VERIF_HOOK("c17:checkpoint-begin", grid.getNumLoaded(), complete.getNumStored());
+            #endif
             { // copy current into old and write to current
                 std::ifstream current_state(filename, std::ios::binary);
                 std::ofstream previous_state(filename_old, std::ios::binary);
@@ -166,6 +181,9 @@ void constructCommon(ModelSignature model,
             std::ofstream ofs(filename, std::ios::binary);
             grid.write(ofs, mode_binary); // write grid to current
             complete.write(ofs);
+            #ifdef TASMANIAN_VERIF_HOOKS
+            TSG_VERIF_HOOK("c17:checkpoint-end", grid.getNumLoaded(), complete.getNumStored());
+            #endif
         }
     };
 
